@@ -214,3 +214,17 @@ CASES += [
         (_ESO, "                rhot = ReducedDensityMatrixEvolution(timeaxis=ntime,\n                                                     rhoi=target,\n                                                     is_in_rwa=self.is_in_rwa)",
          "                rhot = ReducedDensityMatrixEvolution(timeaxis=ntime,\n                                                     rhoi=target)\n                rhot.is_in_rwa = self.is_in_rwa", 1)]},
 ]
+
+_RDM = "quantarhei/qm/propagators/rdmpropagator.py"
+_SVP = "quantarhei/qm/propagators/svpropagator.py"
+CASES += [
+    {"name": "trace renormalised after every step of the relaxation routine", "kind": "mutant", "rule": "C02-P", "edits": [
+        (_RDM, "                rho1 = rho2    \n                \n            pr.data[indx,:,:] = rho2                        \n            indx += 1                       \n",
+               "                rho1 = rho2    \n                \n            rho2 = rho2/numpy.trace(rho2)\n            rho1 = rho2\n            pr.data[indx,:,:] = rho2                        \n            indx += 1                       \n", 1)]},
+    {"name": "state vector renormalised after every step", "kind": "mutant", "rule": "C02-P", "edits": [
+        (_SVP, "                psi1 = psi2    \n                \n            pr.data[indx,:] = psi2                        \n            indx += 1       \n",
+               "                psi1 = psi2    \n                \n            psi2 = psi2/numpy.sqrt(numpy.real(numpy.vdot(psi2, psi2)))\n            psi1 = psi2\n            pr.data[indx,:] = psi2                        \n            indx += 1       \n", 3)]},
+    {"name": "state vector step stored through a scaled copy", "kind": "twin", "edits": [
+        (_SVP, "                psi1 = psi2    \n                \n            pr.data[indx,:] = psi2                        \n            indx += 1       \n",
+               "                psi1 = psi2    \n                \n            pr.data[indx,:] = 1.0*psi2\n            indx += 1       \n", 3)]},
+]
